@@ -35,6 +35,9 @@ class ShadowGen:
         w = self.next_width()
         self.member_seq += 1
         vals = sorted({0, (1 << w) - 1, self.rng.getrandbits(w)})
+        if self.rng.random() < 0.15:
+            vals = []   # an enum without fields is a definition like any other (the language guide's own scoping example uses them)
+            self.res.count("enums_without_fields")
         return Enum(name, w, [(f"E{self.member_seq}_V{k}", v) for k, v in enumerate(vals)], parent=parent)
 
     def candidates(self, chain, f):
@@ -304,6 +307,9 @@ def worker(ctx):
                 continue
             try:
                 for m in [m for g in root.all_files() for m in messages_of(g)]:
+                    if any(isinstance(it.etype, Enum) and not it.etype.members for it in ref.leaves(m)):
+                        res.count("layout_probe_skipped_enum_without_fields")   # no in-range value exists for such a leaf (C01's premise); bindings are judged on the AST
+                        continue
                     for v in gen.gen_values(rng, m, 4):
                         try:
                             got = bytes(mods.build(m, v).encode())
